@@ -54,6 +54,12 @@ def path_join_safe(root_directory: str, filename: str):
     path = os.path.join(root_directory, filename)
     path = os.path.abspath(path)
 
+    # an absolute filename replaces the root when joined:
+    # verify that the result is still contained in the root directory
+    root = os.path.abspath(root_directory)
+    if path != root and not path.startswith(os.path.join(root, "")):
+        raise ValueError("invalid path")
+
     return path
 
 class Response(object):
